@@ -82,6 +82,21 @@ pub fn gen_steps(rng: &mut Rng, ntok: usize) -> Vec<Value> {
     v
 }
 
+/// the same queries through the kind-dispatching `DecodedMap::lookup_token`
+fn lookups_decoded(d: &DecodedMap, qs: &[Value]) -> Value {
+    let mut rs = vec![];
+    for q in qs {
+        let (l, c) = (qnum(&q[0]), qnum(&q[1]));
+        let r = guard(|| match d.lookup_token(l, c) {
+            Some(t) => json!([{"tok": tok_json(&t), "sl": num(t.get_src_line()), "sc": num(t.get_src_col())}]),
+            None => json!([]),
+        });
+        if r.get("k").is_some() { return json!({"k": "panic", "at": q, "msg": r["msg"]}); }
+        rs.push(r);
+    }
+    json!({"k": "ok", "rs": rs})
+}
+
 fn observe(sm: &SourceMap, qs: &[Value], via: &str, how: &str, em: &mut Emitter) {
     let toks: Vec<Value> = sm.tokens().map(|t| tok_json(&t)).collect();
     em.emit("ordering", json!({"how": how, "via": via}), ordering_out(sm));
@@ -102,6 +117,8 @@ pub fn run(case: &Value, em: &mut Emitter) {
         match &d {
             DecodedMap::Regular(sm) => {
                 observe(sm, &qs, "direct", &how, em);
+                let toks: Vec<Value> = sm.tokens().map(|t| tok_json(&t)).collect();
+                em.emit("lookups", json!({"how": how, "via": "decodedmap", "toks": toks, "qs": qs}), lookups_decoded(&d, &qs));
                 if case.get("producers").is_some() {
                     if let Ok(r) = sm.clone().rewrite(&sourcemap::RewriteOptions::default()) {
                         observe(&r, &qs, "rewrite", &how, em);
@@ -131,7 +148,11 @@ pub fn run(case: &Value, em: &mut Emitter) {
                     observe(&f, &qs, "flatten", &how, em);
                 }
             }
-            DecodedMap::Hermes(h) => observe(h, &qs, "direct", &how, em),
+            DecodedMap::Hermes(h) => {
+                observe(h, &qs, "direct", &how, em);
+                let toks: Vec<Value> = h.tokens().map(|t| tok_json(&t)).collect();
+                em.emit("lookups", json!({"how": how, "via": "decodedmap", "toks": toks, "qs": qs}), lookups_decoded(&d, &qs));
+            }
         }
     }
 }
